@@ -701,21 +701,23 @@ Record Inv (st : state) (order : list nat) : Prop := {
 (** what a successful call may change *)
 Record Ext (st : state) (order : list nat) (st' : state) (order' : list nat) : Prop := {
   ext_order : exists pre, order' = pre ++ order;
-  ext_disc : forall g, nth_error (gmap st') g = Some DISCOVERED <-> nth_error (gmap st) g = Some DISCOVERED
+  ext_disc : forall g, nth_error (gmap st') g = Some DISCOVERED <-> nth_error (gmap st) g = Some DISCOVERED;
+  ext_undef : forall g, nth_error (gmap st') g = Some UNDEF -> nth_error (gmap st) g = Some UNDEF
 }.
 
 Lemma Ext_refl : forall st order, Ext st order st order.
-Proof. intros. constructor; [exists []; reflexivity | tauto]. Qed.
+Proof. intros. constructor; [exists []; reflexivity | tauto | auto]. Qed.
 
 Lemma Ext_trans : forall s1 o1 s2 o2 s3 o3, Ext s1 o1 s2 o2 -> Ext s2 o2 s3 o3 -> Ext s1 o1 s3 o3.
 Proof.
-  intros s1 o1 s2 o2 s3 o3 [[p1 E1] D1] [[p2 E2] D2]. constructor.
+  intros s1 o1 s2 o2 s3 o3 [[p1 E1] D1 U1] [[p2 E2] D2 U2]. constructor.
   - exists (p2 ++ p1). subst. rewrite app_assoc. reflexivity.
   - intro g. rewrite D2. apply D1.
+  - intros g H. apply U1. apply U2. exact H.
 Qed.
 
 Lemma Ext_In : forall st order st' order' g, Ext st order st' order' -> In g order -> In g order'.
-Proof. intros st order st' order' g [[p E] _] H. subst. apply in_or_app. right. exact H. Qed.
+Proof. intros st order st' order' g [[p E] _ _] H. subst. apply in_or_app. right. exact H. Qed.
 
 Lemma Linked_weaken : forall d gs g m d' ex, NF (mkCircuit n gs) ->
   Linked c d gs g m -> d <= d' -> Linked c d' (gs ++ ex) g m.
@@ -840,6 +842,12 @@ Proof.
         split; intro Hx; inversion Hx; congruence.
       * rewrite nth_error_set_nth_neq by congruence. rewrite (ext_disc _ _ _ _ E1 g). simpl.
         rewrite nth_error_set_nth_neq by congruence. tauto.
+    + intros g. simpl. destruct (Nat.eq_dec g idx) as [E|E].
+      * subst g. rewrite nth_error_set_nth_eq by exact Hlt1. destruct Hf' as [F _].
+        intro Hx. inversion Hx. congruence.
+      * rewrite nth_error_set_nth_neq by congruence. intro Hx.
+        apply (ext_undef _ _ _ _ E1) in Hx. simpl in Hx.
+        rewrite nth_error_set_nth_neq in Hx by congruence. exact Hx.
   - left. reflexivity.
 Qed.
 
@@ -1122,3 +1130,201 @@ Proof.
 Qed.
 
 End Sound.
+
+(* ------------------------------------------------------------------ *)
+(** ** Errors and totality *)
+
+(** every gate literal of the circuit and of the roots refers to an existing
+    gate (the documented domain of [simplify]; otherwise the code panics) *)
+Definition Closed (c : circuit) (roots : list lit) : Prop :=
+  (forall r g, In r roots -> latom r = AGate g -> g < num_gates c) /\
+  (forall g h, child c g h -> h < num_gates c).
+
+Lemma closed_b_spec : forall c roots, closed_b c roots = true <-> Closed c roots.
+Proof.
+  intros c roots. unfold closed_b, Closed. rewrite forallb_forall. split.
+  - intros H. split.
+    + intros r g Hr Hg. apply Nat.ltb_lt. apply H. apply in_or_app. left.
+      apply gate_atoms_In. eauto.
+    + intros g h [gt [l [Hgt [Hl Hh]]]]. apply Nat.ltb_lt. apply H. apply in_or_app. right.
+      apply in_flat_map. exists gt. split; [eapply nth_error_In; eauto|]. apply gate_atoms_In. eauto.
+  - intros [H1 H2] x Hx. apply Nat.ltb_lt. apply in_app_or in Hx. destruct Hx as [Hx|Hx].
+    + apply gate_atoms_In in Hx. destruct Hx as [l [Hl E]]. eauto.
+    + apply in_flat_map in Hx. destruct Hx as [gt [Hgt Hx]]. apply gate_atoms_In in Hx.
+      destruct Hx as [l [Hl E]]. apply In_nth_error in Hgt. destruct Hgt as [g Hg].
+      apply (H2 g x). exists gt, l. auto.
+Qed.
+
+(** [Err(l)] is justified: [l] is a reachable gate that lies on a cycle, or an
+    unknown input (incl. UNDEF) mentioned by a reachable gate *)
+Definition ErrOk (c : circuit) (roots : list lit) (l : lit) : Prop :=
+  (exists g, l = gate_lit false g /\ Reach c roots g /\ Path c g g) \/
+  (unknown_input_b (n_inputs c) l = true /\
+   exists g gt, Reach c roots g /\ nth_error (gates c) g = Some gt /\ In l (gins gt)).
+
+Section Total.
+Variable c : circuit.
+Variable roots : list lit.
+Hypothesis Hclosed : Closed c roots.
+
+Lemma Reach_lt : forall g, Reach c roots g -> g < num_gates c.
+Proof.
+  destruct Hclosed as [H1 H2]. intros g H. induction H as [r g Hr Hg | g h _ _ Hc]; eauto.
+Qed.
+
+Definition is_undef_at (gmp : list lit) (g : nat) : bool :=
+  match nth_error gmp g with Some m => lit_eqb m UNDEF | None => false end.
+
+Definition undefs (st : state) : list nat :=
+  filter (is_undef_at (gmap st)) (seq 0 (length (gmap st))).
+
+Lemma undefs_In : forall st g, In g (undefs st) <-> nth_error (gmap st) g = Some UNDEF.
+Proof.
+  intros st g. unfold undefs, is_undef_at. rewrite filter_In, in_seq. split.
+  - intros [_ H]. destruct (nth_error (gmap st) g) as [m|]; [|discriminate].
+    apply lit_eqb_eq in H. congruence.
+  - intros H. split.
+    + assert (g < length (gmap st)) by (apply nth_error_Some; congruence). lia.
+    + rewrite H. apply lit_eqb_refl.
+Qed.
+
+Lemma undefs_NoDup : forall st, NoDup (undefs st).
+Proof. intros. unfold undefs. apply NoDup_filter. apply seq_NoDup. Qed.
+
+Lemma undefs_ext : forall st o st' o', Ext st o st' o' -> length (undefs st') <= length (undefs st).
+Proof.
+  intros st o st' o' E. apply NoDup_incl_length; [apply undefs_NoDup|].
+  intros g Hg. apply undefs_In. apply (ext_undef _ _ _ _ E). apply undefs_In. exact Hg.
+Qed.
+
+Lemma undefs_set_discovered : forall st idx, nth_error (gmap st) idx = Some UNDEF ->
+  S (length (undefs (set_map st idx DISCOVERED))) <= length (undefs st).
+Proof.
+  intros st idx H.
+  assert (Hlt : idx < length (gmap st)) by (apply nth_error_Some; congruence).
+  change (S (length (undefs (set_map st idx DISCOVERED)))) with (length (idx :: undefs (set_map st idx DISCOVERED))).
+  apply NoDup_incl_length.
+  - constructor; [|apply undefs_NoDup]. intro Hin. apply undefs_In in Hin. simpl in Hin.
+    rewrite nth_error_set_nth_eq in Hin by exact Hlt. discriminate.
+  - intros g [Hg|Hg]; apply undefs_In.
+    + subst. exact H.
+    + apply undefs_In in Hg. simpl in Hg. destruct (Nat.eq_dec g idx) as [E|E].
+      * subst. rewrite nth_error_set_nth_eq in Hg by exact Hlt. discriminate.
+      * rewrite nth_error_set_nth_neq in Hg by congruence. exact Hg.
+Qed.
+
+Definition Good (r : res state) : Prop :=
+  match r with Ok _ => True | Err l => ErrOk c roots l | Crash => False | Fuel => False end.
+
+Definition InnerGood (f : nat) : Prop :=
+  forall idx st order, Inv c st order -> Reach c roots idx ->
+    (forall d, nth_error (gmap st) d = Some DISCOVERED -> Path c d idx) ->
+    length (undefs st) < f -> Good (inner c f idx st).
+
+Lemma visit_good : forall f, InnerGood f ->
+  forall p gt, nth_error (gates c) p = Some gt -> Reach c roots p ->
+  forall ls st order, Inv c st order -> incl ls (gins gt) ->
+    (forall d, nth_error (gmap st) d = Some DISCOVERED -> d = p \/ Path c d p) ->
+    length (undefs st) < f -> Good (visit_inputs c (inner c f) ls st).
+Proof.
+  intros f HG p gt Hgt Hp. induction ls as [|l r IH]; intros st order I Hsub Hd Hu; simpl.
+  - exact Logic.I.
+  - assert (Hl : In l (gins gt)) by (apply Hsub; left; reflexivity).
+    assert (Hsub' : incl r (gins gt)) by (intros x Hx; apply Hsub; right; exact Hx).
+    destruct l as [s at_]. simpl. destruct at_ as [ | i | h | ].
+    + eapply IH; eauto.
+    + destruct (Nat.leb (n_inputs c) i) eqn:Ei.
+      * right. split; [exact Ei|]. exists p, gt. auto.
+      * eapply IH; eauto.
+    + assert (Hc : child c p h) by (exists gt, (L s (AGate h)); auto).
+      assert (Hgood : Good (inner c f h st)).
+      { eapply HG; eauto.
+        - eapply Reach_step; eauto.
+        - intros d Hdd. destruct (Hd d Hdd) as [E|P]; [subst; apply Path_one; exact Hc | eapply Path_step; eauto]. }
+      destruct (inner c f h st) as [st1|e| |] eqn:Ei; try exact Hgood.
+      destruct (inner_spec c f _ _ _ _ I Ei) as [o1 [I1 [E1 _]]].
+      eapply IH; eauto.
+      * intros d Hdd. apply Hd. apply (ext_disc _ _ _ _ E1). exact Hdd.
+      * pose proof (undefs_ext _ _ _ _ E1). lia.
+    + right. split; [reflexivity|]. exists p, gt. auto.
+Qed.
+
+Lemma inner_good : forall f, InnerGood f.
+Proof.
+  induction f as [|f IH]; intros idx st order I Hr Hd Hu; [lia|]. simpl.
+  assert (Hlt : idx < length (gmap st)) by (rewrite (inv_len _ _ _ I); apply Reach_lt; exact Hr).
+  destruct (nth_error (gmap st) idx) as [m|] eqn:Em; [|apply nth_error_None in Em; lia].
+  destruct (lit_eqb m DISCOVERED) eqn:Ed.
+  { apply lit_eqb_eq in Ed. subst m. left. exists idx. split; [reflexivity|]. split; [exact Hr | apply Hd; exact Em]. }
+  destruct (lit_eqb m UNDEF) eqn:Eu; simpl; [|exact Logic.I].
+  apply lit_eqb_eq in Eu. subst m.
+  destruct (nth_error (gates c) idx) as [gt|] eqn:Eg.
+  2:{ apply nth_error_None in Eg. pose proof (Reach_lt idx Hr). unfold num_gates in *. lia. }
+  pose proof (Inv_set_discovered c st order idx I Em) as I0.
+  assert (Hgood : Good (visit_inputs c (inner c f) (gins gt) (set_map st idx DISCOVERED))).
+  { eapply (visit_good f IH idx gt Eg Hr (gins gt) _ order I0 (incl_refl _)).
+    - intros d Hdd. simpl in Hdd. destruct (Nat.eq_dec d idx) as [E|E]; [left; exact E|].
+      rewrite nth_error_set_nth_neq in Hdd by congruence. right. apply Hd. exact Hdd.
+    - pose proof (undefs_set_discovered st idx Em). lia. }
+  destruct (visit_inputs c (inner c f) (gins gt) (set_map st idx DISCOVERED)) as [st1|e| |] eqn:Ev;
+    try exact Hgood.
+  destruct (visit_inputs_spec c _ (inner_spec c f) _ _ _ _ I0 Ev) as [o1 [I1 [E1 C1]]].
+  destruct st1 as [gm1 gs1].
+  assert (Hok : InputsOk c (length o1) gs1 gm1 (gins gt)).
+  { intros l Hl. specialize (C1 l Hl). unfold child_ok in C1. destruct (latom l) eqn:El; auto.
+    apply (inv_fin _ _ _ I1) in C1. destruct C1 as [m [Hm F]]. exists m. split; [exact Hm|].
+    apply (inv_link _ _ _ I1); assumption. }
+  destruct (finish_sound c (length o1) gs1 gm1 idx gt (inv_nf _ _ _ I1) Eg Hok) as [m' [gs' [Hfin _]]].
+  rewrite Hfin. exact Logic.I.
+Qed.
+
+Lemma roots_good : forall rs st order, Inv c st order -> incl rs roots ->
+  (forall d, nth_error (gmap st) d <> Some DISCOVERED) ->
+  Good (simplify_roots c (S (num_gates c)) rs st).
+Proof.
+  induction rs as [|r rs IH]; intros st order I Hsub Hnd; simpl; [exact Logic.I|].
+  assert (Hsub' : incl rs roots) by (intros x Hx; apply Hsub; right; exact Hx).
+  unfold get_gate_no. destruct (latom r) as [ | i | g | ] eqn:Er; try (eapply IH; eauto).
+  assert (Hgood : Good (inner c (S (num_gates c)) g st)).
+  { eapply inner_good; eauto.
+    - eapply Reach_root; [apply Hsub; left; reflexivity | exact Er].
+    - intros d Hdd. exfalso. exact (Hnd d Hdd).
+    - assert (length (undefs st) <= length (gmap st)).
+      { unfold undefs. eapply Nat.le_trans; [apply filter_length_le|]. rewrite seq_length. lia. }
+      rewrite (inv_len _ _ _ I) in H. lia. }
+  destruct (inner c (S (num_gates c)) g st) as [st1|e| |] eqn:Ei; try exact Hgood.
+  destruct (inner_spec c _ _ _ _ _ I Ei) as [o1 [I1 [E1 _]]].
+  eapply IH; eauto. intros d Hdd. apply (Hnd d). apply (ext_disc _ _ _ _ E1). exact Hdd.
+Qed.
+
+(** Every answer of the model on a closed circuit is the right one: an [Ok]
+    answer passes the audit [ok_answer_b], an [Err] answer is justified, and the
+    model neither indexes out of bounds nor runs out of fuel. *)
+Theorem simp_answer :
+  match simplify c roots with
+  | Ok (c', gm) => ok_answer_b c roots c' gm = true
+  | Err l => ErrOk c roots l
+  | Crash => False
+  | Fuel => False
+  end.
+Proof.
+  destruct (simplify c roots) as [[c' gm]|l| |] eqn:E.
+  - apply simp_ok_answer. exact E.
+  - unfold simplify in E.
+    pose proof (roots_good roots _ _ (Inv_init c) (incl_refl _)) as Hg.
+    destruct (simplify_roots c (S (num_gates c)) roots _) as [st|e| |] eqn:Es; try discriminate.
+    + destruct st; discriminate.
+    + inversion E. subst. apply Hg. intros d Hd. simpl in Hd. apply nth_error_In in Hd. apply repeat_spec in Hd. discriminate.
+  - unfold simplify in E.
+    pose proof (roots_good roots _ _ (Inv_init c) (incl_refl _)) as Hg.
+    destruct (simplify_roots c (S (num_gates c)) roots _) as [st|e| |] eqn:Es; try discriminate.
+    + destruct st; discriminate.
+    + apply Hg. intros d Hd. simpl in Hd. apply nth_error_In in Hd. apply repeat_spec in Hd. discriminate.
+  - unfold simplify in E.
+    pose proof (roots_good roots _ _ (Inv_init c) (incl_refl _)) as Hg.
+    destruct (simplify_roots c (S (num_gates c)) roots _) as [st|e| |] eqn:Es; try discriminate.
+    + destruct st; discriminate.
+    + apply Hg. intros d Hd. simpl in Hd. apply nth_error_In in Hd. apply repeat_spec in Hd. discriminate.
+Qed.
+
+End Total.
